@@ -1,5 +1,5 @@
 #!/bin/bash
-# Apply each patch (deliberate property-breaking change) to /repo's working tree, rebuild the
+# Apply each patch (deliberate property-breaking change) to a scratch worktree of /repo, rebuild the
 # simulator, run the given checks with a reduced run count, record which check reports a
 # violation, and undo the patch. Never commits anything to /repo.
 #
@@ -19,24 +19,28 @@ done
 [ ${#props[@]} -eq 0 ] && props=(C05 C06 C13 C17 C11 C03 C08 C04)
 RUNS=${RUNS:-20000}
 CFG=${CFG:-default}
-if [ -n "$(git -C /repo status --porcelain --untracked-files=no)" ]; then
-  echo "refusing: /repo has uncommitted changes" >&2; exit 2
-fi
-trap 'git -C /repo checkout -- . ; git -C /repo clean -fdq -- ts-rs/src macros/src' EXIT
+# Works on a scratch worktree of /repo's HEAD (never on /repo itself), built through the shadow
+# manifest of build.sh, so that it can run while /repo is in use; removed again at the end.
+SCR=${SENS_REPO:-/tmp/sens-repo}
+git -C /repo worktree remove --force "$SCR" 2>/dev/null
+git -C /repo worktree add -q --detach "$SCR" HEAD || exit 2
+export VERIF_REPO=$SCR
+BIN=/verif/target/shadow-bin
+trap 'git -C /repo worktree remove --force "$SCR" 2>/dev/null' EXIT
 for p in "${patches[@]}"; do
   name=$(basename "$p" .diff)
   [ "$name" = patch ] && name=$(basename "$(dirname "$p")")
-  git -C /repo checkout -- .
-  if ! git -C /repo apply "$(realpath "$p")"; then echo "$name: PATCH DOES NOT APPLY"; continue; fi
+  git -C "$SCR" checkout -- .
+  if ! git -C "$SCR" apply "$(realpath "$p")"; then echo "$name: PATCH DOES NOT APPLY"; continue; fi
   if ! /verif/build.sh "$CFG" 2>/tmp/sens-build.log; then
-    echo "$name: BUILD FAILED (with hooks on)"; head -20 /tmp/sens-build.log; git -C /repo checkout -- .; continue
+    echo "$name: BUILD FAILED (with hooks on)"; head -20 /tmp/sens-build.log; git -C "$SCR" checkout -- .; continue
   fi
   for prop in "${props[@]}"; do
     n=$RUNS
     [ "$prop" = C17 ] && n=$((RUNS / 10))
     rd=/tmp/sens-replays/$name/$prop
     rm -rf "$rd"; mkdir -p "$rd"
-    out=$(VERIF_MAX_MINIMISE=${VERIF_MAX_MINIMISE:-1} "/verif/target/bin/tsrs-sim-$CFG" run "$prop" --config "$CFG" --runs "$n" --workers "${VERIF_WORKERS:-16}" --evidence "/tmp/sens-ev.json" --replays "$rd" 2>&1)
+    out=$(VERIF_MAX_MINIMISE=${VERIF_MAX_MINIMISE:-1} "$BIN/tsrs-sim-$CFG" run "$prop" --config "$CFG" --runs "$n" --workers "${VERIF_WORKERS:-16}" --evidence "/tmp/sens-ev.json" --replays "$rd" 2>&1)
     rc=$?
     if [ $rc -eq 1 ]; then
       first=$(ls "$rd"/*.json 2>/dev/null | head -1)
@@ -44,7 +48,7 @@ for p in "${patches[@]}"; do
       oracles=$(for f in "$rd"/*.json; do jq -r .oracle "$f"; done | sort | uniq -c | sort -rn | awk '{printf "%s x%s ", $2, $1}')
       total=$(echo "$out" | grep -oE "[0-9]+ violating runs" | head -1)
       # the minimised replay must reproduce the same violation in a fresh process
-      rp=$("/verif/target/bin/tsrs-sim-$CFG" replay "$first" 2>&1); rprc=$?
+      rp=$("$BIN/tsrs-sim-$CFG" replay "$first" 2>&1); rprc=$?
       if [ $rprc -eq 1 ] && echo "$rp" | grep -q -- "--- $(jq -r .oracle "$first") "; then rpl="replay reproduces"; else rpl="REPLAY DOES NOT REPRODUCE (rc=$rprc)"; fi
       echo "$name $prop CAUGHT ($total of $n seeds; minimised: $oracles; ops $(jq -r '.ops_before_minimisation' "$first")->$(jq -r '.ops_after_minimisation' "$first"); $rpl)"
     elif [ $rc -eq 0 ]; then
@@ -53,5 +57,5 @@ for p in "${patches[@]}"; do
       echo "$name $prop HARNESS ERROR"; echo "$out" | tail -5
     fi
   done
-  git -C /repo checkout -- .
+  git -C "$SCR" checkout -- .
 done
